@@ -60,7 +60,7 @@ func newSolver(kind SolverKind, timeout time.Duration) (*solver, error) {
 	case SolverZ3Old:
 		cmd = exec.Command("z3", "-in", fmt.Sprintf("-t:%d", ms))
 	case SolverCVC5:
-		cmd = exec.Command("cvc5", "--incremental", "--lang=smt2", "--produce-models", fmt.Sprintf("--tlimit-per=%d", ms))
+		return &solver{kind: kind, timeout: timeout}, nil // one process per query (runCVC5OneShot)
 	}
 	in, err := cmd.StdinPipe()
 	if err != nil {
@@ -80,10 +80,13 @@ func newSolver(kind SolverKind, timeout time.Duration) (*solver, error) {
 }
 
 func (s *solver) close() {
-	if s == nil || s.cmd == nil {
+	if s == nil {
 		return
 	}
 	s.alt.close()
+	if s.cmd == nil {
+		return
+	}
 	s.in.Close()
 	s.cmd.Process.Kill()
 	s.cmd.Wait()
@@ -100,9 +103,8 @@ func (s *solver) reset() {
 	s.log = s.log[:0]
 	s.emitted = map[uint64]bool{}
 	s.decl = map[string]bool{}
-	io.WriteString(s.in, "(reset)\n")
-	if s.kind == SolverCVC5 {
-		io.WriteString(s.in, "(set-logic ALL)\n")
+	if s.in != nil {
+		io.WriteString(s.in, "(reset)\n")
 	}
 }
 
@@ -523,12 +525,71 @@ func (s *solver) oneShot(extra []*Term, vars []*Term) (checkResult, Model) {
 }
 
 func (s *solver) runScript(script string, vars []*Term) (checkResult, Model) {
+	if s.kind == SolverCVC5 {
+		return s.runCVC5OneShot(script, vars)
+	}
 	io.WriteString(s.in, "(reset)\n")
 	if s.kind == SolverCVC5 {
 		io.WriteString(s.in, "(set-option :produce-models true)\n(set-logic ALL)\n")
 	}
 	io.WriteString(s.in, script)
 	return s.checkSatAndModel(vars)
+}
+
+// runCVC5OneShot starts a fresh, non-incremental cvc5 for one query: in incremental
+// mode (and after (reset)) cvc5 1.0 loses the preprocessing that decides these wrap-LIA
+// queries in well under a second (measured: 0.5 s one-shot vs unknown after 20 s).
+func (s *solver) runCVC5OneShot(script string, vars []*Term) (checkResult, Model) {
+	var names []string
+	for _, v := range vars {
+		names = append(names, smtName(v.name))
+	}
+	var in strings.Builder
+	in.WriteString("(set-option :produce-models true)\n(set-logic ALL)\n")
+	in.WriteString(script)
+	in.WriteString("(check-sat)\n")
+	ms := int(s.timeout / time.Millisecond)
+	run := func(withModel bool) (string, error) {
+		full := in.String()
+		if withModel && len(names) > 0 {
+			full += "(get-value (" + strings.Join(names, " ") + "))\n"
+		}
+		cmd := exec.Command("cvc5", "--lang=smt2", fmt.Sprintf("--tlimit=%d", ms))
+		cmd.Stdin = strings.NewReader(full)
+		out, err := cmd.CombinedOutput()
+		return string(out), err
+	}
+	out, _ := run(false)
+	first := ""
+	for _, l := range strings.Split(out, "\n") {
+		l = strings.TrimSpace(l)
+		if l == "sat" || l == "unsat" || l == "unknown" {
+			first = l
+			break
+		}
+		if strings.HasPrefix(l, "(error") {
+			return resUnknown, nil
+		}
+	}
+	switch first {
+	case "unsat":
+		return resUnsat, Model{}
+	case "sat":
+		if len(names) == 0 {
+			return resSat, Model{}
+		}
+		out, _ = run(true)
+		i := strings.Index(out, "sat")
+		if i < 0 || strings.Contains(out, "(error") {
+			return resUnknown, nil
+		}
+		m, ok := parseGetValue(out[i+3:], vars)
+		if !ok {
+			return resUnknown, nil
+		}
+		return resSat, m
+	}
+	return resUnknown, nil
 }
 
 // parseGetValue parses "((v_a 1) (v_b (- 2)) (v_c true))".
